@@ -6,7 +6,8 @@ For each generated world (several fleets, vehicles in two fleets, stations with 
 same cell, same plug counts -, human and autonomous drivers, requests with equal value) the real
 StepSimulation.update (Dispatcher + ChargingFleetManager + driver instructions + stack + apply +
 vehicle updates) runs for a few steps; the canonical state after every step and the canonical
-multiset of that step's reports are printed as digests."""
+multiset of that step's reports are printed as digests. Likewise generated initial layouts through
+the real initialisation and generated price tables / request files through the real readers."""
 from __future__ import annotations
 
 import json
@@ -70,6 +71,17 @@ def main() -> None:
     for i in range(max(2, count // 2)):
         rec = layout.gen_case(lrng, i)
         out.append({"world": 1000 + i, "steps": [[digest(json.dumps(rec.get("sim"), sort_keys=True)), digest(str(rec.get("raised")))]], "error": None})
+    # timed inputs: generated price tables (several keys naming the same station in one batch) and request
+    # files through the real readers; the prices in force and the admissions after every step must not
+    # depend on the hash seed
+    from . import timed
+
+    trng = random.Random(seed + 29)
+    for i in range(max(8, count)):
+        rec = timed.gen_case(trng, i)
+        out.append({"world": 2000 + i,
+                    "steps": [[digest(json.dumps(o["prices"], sort_keys=True)), digest(json.dumps([o["adds"], o["cancels"], o["present"]]))] for o in rec["obs"]],
+                    "error": None if not rec.get("raised") else json.dumps(rec["raised"])[:200]})
     sys.stdout.write(json.dumps(out) + "\n")
 
 
